@@ -27,6 +27,9 @@ func init() {
 	registry.RegisterAnyConverter(reflect.TypeOf((*RawMessage)(nil)),
 		func(in any) (any, bool) {
 			rm := in.(*RawMessage)
+			if rm == nil {
+				return nil, true
+			}
 			return json.RawMessage(rm.Value), true
 		},
 	)
